@@ -164,10 +164,21 @@ def _walk_counts(ctx, structure):
             _walk_counts(ctx, frag)
 
 
+def _has_exponent_band_count(structure):
+    for c, frag in structure:
+        if c != 1 and in_exponent_band(c):
+            return True
+        if isinstance(frag, (list, tuple)) and _has_exponent_band_count(frag):
+            return True
+    return False
+
+
 def _features(f, s):
+    """Features of the formula that trigger a listed finding: a count in the band that %g prints in
+    exponent form (judged on the structure, not on the printed string), an ion of D or T."""
     from ..atoms import key as akey
     feats = []
-    if EXP_COUNT.search(s):
+    if _has_exponent_band_count(f.structure):
         feats.append('exp')
     if any(k[0] == 1 and k[1] in (2, 3) and k[2] != 0 for k in (akey(a) for a in f.atoms)):
         feats.append('dt_ion')
@@ -199,7 +210,14 @@ def _judge(ctx, f, T, case, source):
     """Round trip of one formula; reports violations with the detail the classifier needs."""
     from periodictable import formulas
     from ..gen.formulas import shape_of
-    problems, s = _roundtrip(ctx, f, T)
+    try:
+        problems, s = _roundtrip(ctx, f, T)
+    except PrintedFormBroken as exc:
+        lines = [l.strip() for l in str(exc).split('\n') if l.strip()]
+        ctx.violation('postcondition of _str_atoms violated while printing %s: %s'
+                      % (repr(f.structure)[:300], ' '.join(lines[1:4])[:400]),
+                      kinds=['contract'], source=source)
+        return
     feats = _features(f, s) if not f.__dict__.get('name') else []
     for ft in feats:
         ctx.count('feature.' + ft)
